@@ -26,6 +26,17 @@ def suite_passes(wt):
     return (int(m.group(1)) if m else -1), out[-400:]
 
 
+def real_passes(wt):
+    """the nasm-comparison tests that really pass (tools/real_suite.sh keeps /dev/stdout intact, which `make check` run as root does not)"""
+    got = set()
+    for _ in range(3):   # a test counts as passing if it passes in one of three runs (the comparison pipes are sensitive to load)
+        rc, out = sh("%s %s" % (os.path.join(ROOT, "tools", "real_suite.sh"), wt), timeout=900)
+        now = set(l.split()[1] for l in out.splitlines() if l.startswith("PASS "))
+        if now <= got and got: break
+        got |= now
+    return got
+
+
 def run_demo(wt, src, meta):
     # copy the demonstration files into the worktree root and run the commands of meta["demo"]
     for f in os.listdir(src):
@@ -63,10 +74,18 @@ def confirm(src, prop, name, wt):
     sh("git apply %s" % patch, cwd=wt)
     npass, tail = suite_passes(wt)
     log["suite_with_change"] = "# PASS: %d" % npass
+    real_with = real_passes(wt)
     failed_with, out_with = run_demo(wt, src, meta)
     clean_demo(wt, src)
     sh("git checkout -- .", cwd=wt)
     npass0, _ = suite_passes(wt)
+    real_ref = real_passes(wt)
+    lost = sorted(real_ref - real_with)
+    if lost:   # once more, to rule out load
+        sh("git apply %s && make -j8" % patch, cwd=wt); lost = sorted(real_ref - real_passes(wt)); sh("git checkout -- . && make -j8", cwd=wt)
+    log["real_suite"] = "%d of the %d nasm comparisons that pass on the unchanged tree (with /dev/stdout intact) still pass%s" % (len(real_ref) - len(lost), len(real_ref), (" ; lost: " + ", ".join(lost)) if lost else "")
+    if lost:
+        print("%s: REJECTED - the repository's own nasm comparison notices it when /dev/stdout is intact: %s" % (name, ", ".join(lost))); return False
     failed_without, out_without = run_demo(wt, src, meta)
     clean_demo(wt, src)
     ok = npass == 96 and npass0 == 96 and failed_with and not failed_without
@@ -79,7 +98,7 @@ def confirm(src, prop, name, wt):
     for f in os.listdir(src):
         shutil.copy(os.path.join(src, f), os.path.join(dst, f))
     meta2 = {"property": prop, "summary": meta.get("summary"), "needs": meta.get("needs"), "demo": meta.get("demo"),
-             "confirmed": {"where": "scratch worktree outside /repo and /verif (removed afterwards)", "suite_with_change": log["suite_with_change"], "suite_without_change": "# PASS: %d" % npass0,
+             "confirmed": {"where": "scratch worktree outside /repo and /verif (removed afterwards)", "suite_with_change": log["suite_with_change"], "suite_without_change": "# PASS: %d" % npass0, "real_suite": log.get("real_suite"),
                            "demonstration_with_change": "fails", "demonstration_without_change": "passes", "commands": ["git apply patch.diff", "make -j8 && make check -j8", meta.get("demo"), "git checkout -- ."]},
              "checks": {}}
     json.dump(meta2, open(os.path.join(dst, "meta.json"), "w"), indent=1)
